@@ -19,9 +19,10 @@ What is proved, for ALL trees / token lists (no size bound):
     the literal ends in a backslash; in that case the repaired StringNode.Format (02ebb2e) uses triple quotes;
   * counterexamples for the code BEFORE the repairs (found by the check on the real code, then fixed).
 Stated, not proved (kept visible): the character-level glue `lexer_reads_formatted_stmt`, the fuel bound
-`fuel_adequate_stmt`, `parser_image_canonical_stmt`.
+`fuel_adequate_stmt`.
 -/
 import Kap.Proofs.C13Lit
+import Kap.Proofs.C13Image
 
 namespace Kap.Props.C13
 open Kap.C13 Kap.C13.Gen
@@ -182,6 +183,35 @@ theorem new_format_keeps_precedence :
       (.bin .TokenMult (.bin .TokenPlus (.id "a") (.id "b") true) (.id "c") false) = true := by
   decide
 
+/-! ## Every accepted input -/
+
+/-- everything the parser returns is canonical: the invariants of both loops of `precedence`, for every token
+list, every fuel -/
+theorem parser_image_canonical (f : Nat) (ts : List Tok) (e : Expr) (rest : List Tok)
+    (h : primaryExpr f ts = .ok (e, rest)) : canon e = true := by
+  obtain ⟨hP, hO, _, _⟩ := image_specs f
+  obtain ⟨x, hx, h⟩ := Res.bind_eq_ok h
+  obtain ⟨cx, bx⟩ := hP _ _ _ (by rw [hx])
+  exact (hO _ _ _ _ _ h cx (fun _ _ _ => okQ_of_not_bare bx _)).1
+
+/-- FULL STRENGTH on the quantifier of the property (expression part): for EVERY token list the parser accepts,
+formatting the tree and parsing the result gives the identical tree (Parens flags included), hence the same
+text on the next pass. -/
+theorem parse_fmt_parse (f : Nat) (ts : List Tok) (e : Expr) (h : parseTokensF f ts = .ok e) :
+    (∃ N, ∀ g, N ≤ g → parseTokensF g (fmtToks e) = .ok e) ∧ fmtToks e = fmtToksOld e := by
+  have hc : canon e = true := by
+    unfold parseTokensF at h
+    split at h <;> try (simp at h)
+    rename_i e' heq
+    obtain rfl := h
+    exact parser_image_canonical f ts _ [] heq
+  refine ⟨?_, format_of_canonical e hc⟩
+  rw [format_of_canonical e hc]
+  exact parseLambda_fmt_canonical e hc
+
+example : (parseTokensF 20 [.id "a", .op .TokenPlus, .id "b", .op .TokenMult, .id "c"]).isOkOf
+    (.bin .TokenPlus (.id "a") (.bin .TokenMult (.id "b") (.id "c") false) false) = true := by decide
+
 /-! ## Stated, not proved -/
 
 /-- character level glue: the lexer + token decoder read the formatted TEXT back as the formatted TOKENS
@@ -192,9 +222,5 @@ def lexer_reads_formatted_stmt : Prop :=
 
 /-- the fixed fuel of `parseTokens` (2·tokens + 4) always suffices -/
 def fuel_adequate_stmt : Prop := ∀ ts : List Tok, ∀ w, parseTokens ts ≠ .na w
-
-/-- everything the parser returns is canonical (so `parse ∘ fmt ∘ parse = parse` for every accepted input) -/
-def parser_image_canonical_stmt : Prop :=
-  ∀ f ts e rest, primaryExpr f ts = .ok (e, rest) → canon e = true
 
 end Kap.Props.C13
